@@ -809,6 +809,14 @@ func (d *decoder) processTextRegion(hdr *segmentHeader, data []byte) error {
 		if !ok || laterSeg.header == nil {
 			continue
 		}
+		// Walking the lists of the referred segments is work which the size
+		// of this (tiny) segment does not pay for: thousands of text regions
+		// can each name the same segments with their 65536 references.  It
+		// is charged to the work budget, weighted like the pixels it is
+		// about as expensive as a handful of.
+		if err := d.pool.chargeWork(8 * int64(len(laterSeg.header.RefSegments))); err != nil {
+			return err
+		}
 		for _, r := range laterSeg.header.RefSegments {
 			if r < laterRef {
 				subsumedBy[r] = true
